@@ -43,6 +43,11 @@ type descriptor struct {
 	// Flood: the first event an alternative waits for arrives at the end of a
 	// back-to-back run of 4..12 events nobody waits for
 	Flood bool `json:"flood,omitempty"`
+	// IncSibling: an inclusive fork in front of the gateway sends a second
+	// token through a task into an inclusive join; alternative 0's branch also
+	// leads to that join, every other alternative to an end event of its own.
+	// The join has to notice that a withdrawn alternative will never arrive.
+	IncSibling bool `json:"incSibling,omitempty"`
 }
 
 const timerExpr = "PT10S"
@@ -69,6 +74,20 @@ func build(d descriptor) *gen.Graph {
 		cur = b.Add(gen.KStart)
 	}
 	eg := b.Add(gen.KEbg)
+	var sibJoin *gen.Node
+	if d.IncSibling {
+		ifork := b.Add(gen.KInc)
+		b.Connect(cur, ifork)
+		sibJoin = b.Add(gen.KInc)
+		sib := b.Add(gen.KTask)
+		b.Connect(ifork, sib)
+		b.Connect(sib, sibJoin)
+		after := b.Add(gen.KTask)
+		aen := b.Add(gen.KEnd)
+		b.Connect(sibJoin, after)
+		b.Connect(after, aen)
+		cur = ifork
+	}
 	if d.TwoTokens {
 		fork := b.Add(gen.KPar)
 		b.Connect(cur, fork)
@@ -95,7 +114,9 @@ func build(d descriptor) *gen.Graph {
 			b.Connect(t, eg)
 			continue
 		}
-		if d.Merge {
+		if sibJoin != nil && i == 0 {
+			b.Connect(t, sibJoin)
+		} else if d.Merge {
 			b.Connect(t, mrg)
 		} else {
 			en := b.Add(gen.KEnd)
@@ -119,6 +140,7 @@ func draw(rt *rapid.T) descriptor {
 	d.InSub = rapid.SampledFrom([]int{0, 0, 0, 1, 2}).Draw(rt, "inSub")
 	d.IncMerge = d.Merge && rapid.IntRange(0, 2).Draw(rt, "incMerge") == 0
 	d.TwoTokens = !d.IncMerge && rapid.IntRange(0, 4).Draw(rt, "twoTokens") == 0
+	d.IncSibling = !d.TwoTokens && !d.Merge && rapid.IntRange(0, 3).Draw(rt, "incSibling") == 0
 	for i := 0; i < n; i++ {
 		ref := fmt.Sprintf("a%d", i)
 		if d.Timer && i == n-1 {
